@@ -52,23 +52,28 @@
 (* Arithmetic is checked (QMatrices.tla): a behaviour whose exact numbers  *)
 (* leave |num|,den < 10^9 goes to pc = "overflow" and is not emitted.      *)
 (***************************************************************************)
-EXTENDS Integers, Sequences, FiniteSets, TLC, Json, QMatrices
+EXTENDS Integers, Sequences, FiniteSets, TLC, Json, IOUtils, QMatrices
 
-CONSTANTS Dims,        \* set of state dimensions, subset of {1, 2}
-          Modes,       \* set of BOOLEAN: TRUE = resample (redraw) before the update
-          Tunings,     \* set of [alpha, beta, kappa : rationals, dflt : BOOLEAN]
-          StepCounts,  \* set of sequence lengths, subset of {1, 2}
-          StackSets,   \* StackSets[step] = set of stack shapes (tuples of observation dims)
-          FSets, QSets, XSets, PSets,   \* ...Sets[n]   = set of integer matrices / vectors
-          HSets,                        \* HSets[n][m]  = set of m x n integer matrices
-          RSets, YSets                  \* ...Sets[m]   = set of m x m matrices / m-vectors
+\* The lattice.  Lattices is a SEQUENCE of records (one product lattice each); every field
+\* is a sequence of candidate values (sequences, not sets, so that a lattice can also be
+\* read from a JSON file written by the driver):
+\*   dims   state dimensions (subset of 1..2)     modes  BOOLEANs, TRUE = resample/redraw
+\*   tun    tunings [alpha, beta, kappa : <<num, den>>, dflt : BOOLEAN (kappa = 3 - n)]
+\*   nsteps sequence lengths (subset of 1..2)     stacks stacks[step] = stack shapes, a shape
+\*                                                       is a tuple of observation dimensions
+\*   F, Q, X, P   [n]    integer n x n matrices (n-vectors for X)
+\*   H            [n][m] integer m x n matrices
+\*   R, Y         [m]    integer m x m matrices / m-vectors
+CONSTANTS Lattices
 
 VARIABLES pc, sys, x, P, pred, obs, fc, est, step, hist
 vars == <<pc, sys, x, P, pred, obs, fc, est, step, hist>>
 
 None == <<>>
-NoSys == [n |-> 0, resample |-> FALSE, tun |-> None, nsteps |-> 0, F |-> None, Q |-> None,
-          x0 |-> None, P0 |-> None]
+NoSys == [lat |-> 0, n |-> 0, resample |-> FALSE, tun |-> None, nsteps |-> 0, F |-> None,
+          Qm |-> None, x0 |-> None, P0 |-> None]
+SeqRange(q) == {q[i] : i \in 1..Len(q)}
+Lat == Lattices[sys.lat]
 
 ---------------------------------------------------------------------------
 \* unscented-transform tuning (UnscentedKalmanFilter.__init__)
@@ -88,19 +93,21 @@ Init == /\ pc = "start" /\ sys = NoSys /\ x = None /\ P = None /\ pred = None
 \* the system is posed in stages so that TLC's workers share the enumeration
 PoseShape ==
   /\ pc = "start"
-  /\ \E n \in Dims, r \in Modes, t \in Tunings, k \in StepCounts :
+  /\ \E g \in 1..Len(Lattices) :
+       \E n \in SeqRange(Lattices[g].dims), r \in SeqRange(Lattices[g].modes),
+          t \in SeqRange(Lattices[g].tun), k \in SeqRange(Lattices[g].nsteps) :
         /\ AdmissibleTuning([NoSys EXCEPT !.n = n, !.tun = t])
-        /\ sys' = [NoSys EXCEPT !.n = n, !.resample = r, !.tun = t, !.nsteps = k]
+        /\ sys' = [NoSys EXCEPT !.lat = g, !.n = n, !.resample = r, !.tun = t, !.nsteps = k]
   /\ pc' = "shape" /\ UNCHANGED <<x, P, pred, obs, fc, est, step, hist>>
 
 PoseDynamics ==
   /\ pc = "shape"
-  /\ \E F \in FSets[sys.n], Qm \in QSets[sys.n] : sys' = [sys EXCEPT !.F = F, !.Q = Qm]
+  /\ \E F \in SeqRange(Lat.F[sys.n]), Qm \in SeqRange(Lat.Q[sys.n]) : sys' = [sys EXCEPT !.F = F, !.Qm = Qm]
   /\ pc' = "dynamics" /\ UNCHANGED <<x, P, pred, obs, fc, est, step, hist>>
 
 PosePrior ==
   /\ pc = "dynamics"
-  /\ \E x0 \in XSets[sys.n], P0 \in PSets[sys.n] :
+  /\ \E x0 \in SeqRange(Lat.X[sys.n]), P0 \in SeqRange(Lat.P[sys.n]) :
         /\ x' = QV(x0) /\ P' = QM(P0) /\ sys' = [sys EXCEPT !.x0 = x0, !.P0 = P0]
   /\ step' = 1 /\ pc' = "predict" /\ UNCHANGED <<pred, obs, fc, est, hist>>
 
@@ -108,17 +115,17 @@ PosePrior ==
 Predict ==
   /\ pc = "predict"
   /\ LET F    == QM(sys.F)
-         px   == MVec(F, x)
+         px   == MMul(F, x)
          prop == MMul(MMul(F, P), MT(F))
-         pp   == MAdd(prop, QM(sys.Q))
+         pp   == MAdd(prop, QM(sys.Qm))
      IN /\ pred' = [x |-> px, prop |-> prop, P |-> pp]
-        /\ pc' = IF VIsNum(px) /\ MIsNum(pp) THEN "stack" ELSE "overflow"
+        /\ pc' = IF MOk(px) /\ MOk(pp) THEN "stack" ELSE "overflow"
   /\ UNCHANGED <<sys, x, P, obs, fc, est, step, hist>>
 
 \* the observations of this step: first the shape of the stack, then one observation at a time
 PoseStack ==
   /\ pc = "stack"
-  /\ \E shape \in StackSets[step] :
+  /\ \E shape \in SeqRange(Lat.stacks[step]) :
         /\ obs' = [k \in 1..Len(shape) |-> [m |-> shape[k], H |-> None, R |-> None, y |-> None]]
         /\ pc' = IF Len(shape) = 0 THEN "forecast" ELSE "obs"
   /\ UNCHANGED <<sys, x, P, pred, fc, est, step, hist>>
@@ -127,36 +134,38 @@ NextOpen == CHOOSE k \in 1..Len(obs) : obs[k].H = None /\ \A j \in 1..(k - 1) : 
 PoseObs ==
   /\ pc = "obs"
   /\ LET k == NextOpen  m == obs[k].m
-     IN \E H \in HSets[sys.n][m], R \in RSets[m], y \in YSets[m] :
+     IN \E H \in SeqRange(Lat.H[sys.n][m]), R \in SeqRange(Lat.R[m]), y \in SeqRange(Lat.Y[m]) :
            /\ obs' = [obs EXCEPT ![k] = [m |-> m, H |-> H, R |-> R, y |-> y]]
            /\ pc' = IF k = Len(obs) THEN "forecast" ELSE "obs"
   /\ UNCHANGED <<sys, x, P, pred, fc, est, step, hist>>
 
+\* the stacked measurement model of the step: H rows, block-diagonal R, stacked y (column)
+StackH == QM(VStack([k \in 1..Len(obs) |-> obs[k].H]))
+StackR == QM(BlockDiag([k \in 1..Len(obs) |-> obs[k].R]))
+StackY == QM(VStack([k \in 1..Len(obs) |-> [i \in 1..obs[k].m |-> <<obs[k].y[i]>>]]))
+
 \* forecast(): the covariance half of the measurement update
-StackH == VStack([k \in 1..Len(obs) |-> QM(obs[k].H)])
-StackR == BlockDiag([k \in 1..Len(obs) |-> QM(obs[k].R)])
-StackY == VConcat([k \in 1..Len(obs) |-> QV(obs[k].y)])
 Forecast ==
   /\ pc = "forecast" /\ Len(obs) > 0
   /\ LET H  == StackH
          R  == StackR
          \* STEP 0: covariance carried by the sigma points that are pushed through H
          Pg == IF sys.resample THEN pred.P ELSE pred.prop
-         S  == MAdd(MMul(MMul(H, Pg), MT(H)), R)          \* STEP 3 innovation covariance
-         C  == MMul(Pg, MT(H))                            \*        cross covariance
+         C  == MMul(Pg, MT(H))                            \* STEP 3 cross covariance
+         S  == MAdd(MMul(H, C), R)                        \*        innovation covariance
          K  == MMul(C, MInv(S))                           \*        gain
          Pp == MSub(pred.P, MMul(MMul(K, S), MT(K)))      \* STEP 4
      IN /\ fc' = [H |-> H, R |-> R, S |-> S, C |-> C, K |-> K, P |-> Pp]
-        /\ pc' = IF MIsNum(S) /\ MIsNum(K) /\ MIsNum(Pp) THEN "update" ELSE "overflow"
+        /\ pc' = IF MOk(S) /\ MOk(K) /\ MOk(Pp) THEN "update" ELSE "overflow"
   /\ UNCHANGED <<sys, x, P, pred, obs, est, step, hist>>
 
 \* update(): the mean half
 Update ==
   /\ pc = "update"
-  /\ LET nu == VSub(StackY, MVec(fc.H, pred.x))
-         ex == VAdd(pred.x, MVec(fc.K, nu))
+  /\ LET nu == MSub(StackY, MMul(fc.H, pred.x))
+         ex == MAdd(pred.x, MMul(fc.K, nu))
      IN /\ est' = [x |-> ex, P |-> fc.P]
-        /\ pc' = IF VIsNum(ex) THEN "advance" ELSE "overflow"
+        /\ pc' = IF MOk(ex) THEN "advance" ELSE "overflow"
   /\ UNCHANGED <<sys, x, P, pred, obs, fc, step, hist>>
 
 \* update([]): no observation - the propagated mean and the predicted covariance are kept
@@ -188,14 +197,11 @@ Spec == Init /\ [][Next]_vars
 Posed   == pc \notin {"start"}
 HasPri  == pc \in {"predict", "stack", "obs", "forecast", "update", "advance"}
 HasPred == pc \in {"stack", "obs", "forecast", "update", "advance"}
-HasFc   == pc = "update"
+HasFc   == pc = "update"                      \* the state right after Forecast
 HasEst  == pc = "advance"
 
 \* a relation whose own verification arithmetic is not representable is left undecided
-MEqU(A, B) == ~MIsNum(A) \/ ~MIsNum(B) \/ MEq(A, B)
-VEqU(u, v) == ~VIsNum(u) \/ ~VIsNum(v) \/ VEq(u, v)
-PSDU(A)    == IsSym(A) /\ \A ix \in PrincipalSets(NRows(A)) :
-                             LET d == SubDet(A, ix) IN ~IsNum(d) \/ d[1] >= 0
+MEqU(A, B) == ~MOk(A) \/ ~MOk(B) \/ A = B
 
 \* ---- the property ----
 WeightsSumToOne  == Posed => CEq(CAdd(W0m(sys), CMul(Q(2 * sys.n), Wi(sys))), One)
@@ -203,19 +209,19 @@ UnitSecondMoment == Posed => CEq(CMul(Q(2), CMul(Wi(sys), Gamma2(sys))), One)
 TuningAdmissible == Posed => CGt0(Gamma2(sys))
 
 Symmetric == /\ HasPri  => IsSym(P)
-             /\ HasPred => IsSym(pred.P) /\ IsSym(pred.prop)
+             /\ (pc = "stack") => IsSym(pred.P) /\ IsSym(pred.prop)
              /\ HasFc   => IsSym(fc.S) /\ IsSym(fc.P)
              /\ HasEst  => IsSym(est.P)
-PSD       == /\ HasPri  => PSDU(P)
-             /\ HasPred => PSDU(pred.P) /\ PSDU(pred.prop)
-             /\ HasFc   => PSDU(fc.S) /\ CGt0(Det(fc.S)) /\ PSDU(fc.P)
-             /\ HasEst  => PSDU(est.P)
+PSD       == /\ (pc = "predict") => IsPSD(P)
+             /\ (pc = "stack") => IsPSD(pred.P) /\ IsPSD(pred.prop)
+             /\ HasFc   => IsPD(fc.S) /\ IsPSD(fc.P)
+             /\ HasEst  => IsPSD(est.P)
 KSKt == MMul(MMul(fc.K, fc.S), MT(fc.K))
 PosteriorIsPriorMinusKSKt == HasFc => MEqU(fc.P, MSub(pred.P, KSKt))
-PosteriorLePrior == /\ HasFc  => PSDU(MSub(pred.P, fc.P))
-                    /\ HasEst => PSDU(MSub(pred.P, est.P))
+PosteriorLePrior == /\ HasFc  => LoewnerLe(fc.P, pred.P)
+                    /\ HasEst => LoewnerLe(est.P, pred.P)
 NoObsReturnsPropagatedMean ==
-  (pc = "advance" /\ Len(obs) = 0) => /\ VEqU(est.x, MVec(QM(sys.F), x))
+  (pc = "advance" /\ Len(obs) = 0) => /\ MEqU(est.x, MMul(QM(sys.F), x))
                                       /\ MEq(est.P, pred.P)
 
 \* ---- independent algebraic cross-checks of the reference itself ----
@@ -223,27 +229,31 @@ GainSolvesNormalEquations == HasFc => MEqU(MMul(fc.K, fc.S), fc.C)
 ImKH == MSub(Ident(sys.n), MMul(fc.K, fc.H))
 RedrawIsTextbookKalman ==
   (HasFc /\ sys.resample) =>
+     /\ fc.C = MMul(pred.P, MT(fc.H))
+     /\ MEqU(fc.S, MAdd(MMul(MMul(fc.H, pred.P), MT(fc.H)), fc.R))
      /\ MEqU(fc.P, MMul(ImKH, pred.P))
      /\ MEqU(fc.P, MAdd(MMul(MMul(ImKH, pred.P), MT(ImKH)),
                         MMul(MMul(fc.K, fc.R), MT(fc.K))))              \* Joseph form
 NoRedrawIsVariant ==
-  (HasFc /\ ~sys.resample) => MEqU(fc.P, MAdd(QM(sys.Q), MMul(ImKH, pred.prop)))
+  (HasFc /\ ~sys.resample) =>
+     /\ MEqU(fc.S, MAdd(MMul(MMul(fc.H, pred.prop), MT(fc.H)), fc.R))
+     /\ MEqU(fc.P, MAdd(QM(sys.Qm), MMul(ImKH, pred.prop)))
 
 \* every number kept in a live state is exact and below 10^9
 NoOverflow ==
   pc # "overflow" =>
-     /\ HasPri  => VIsNum(x) /\ VSmall(x) /\ MIsNum(P) /\ MSmall(P)
-     /\ HasPred => VIsNum(pred.x) /\ VSmall(pred.x) /\ MIsNum(pred.P) /\ MSmall(pred.P)
-     /\ HasFc   => /\ MIsNum(fc.S) /\ MSmall(fc.S) /\ MIsNum(fc.K) /\ MSmall(fc.K)
-                   /\ MIsNum(fc.P) /\ MSmall(fc.P)
-     /\ HasEst  => VIsNum(est.x) /\ VSmall(est.x) /\ MIsNum(est.P) /\ MSmall(est.P)
+     /\ HasPri  => MOk(x) /\ MSmall(x) /\ MOk(P) /\ MSmall(P)
+     /\ HasPred => MOk(pred.x) /\ MSmall(pred.x) /\ MOk(pred.P) /\ MSmall(pred.P)
+     /\ HasFc   => /\ MOk(fc.S) /\ MSmall(fc.S) /\ MOk(fc.K) /\ MSmall(fc.K)
+                   /\ MOk(fc.P) /\ MSmall(fc.P)
+     /\ HasEst  => MOk(est.x) /\ MSmall(est.x) /\ MOk(est.P) /\ MSmall(est.P)
 
-\* ---- hand-over to the replay driver ----
+\* ---- hand-over to the replay driver (matrices as [n |-> integers, d |-> denominator]) ----
 Emit == pc = "done" =>
           PrintT("LG " \o ToJson([n |-> sys.n, resample |-> sys.resample, tun |-> sys.tun,
                                   w |-> [w0m |-> W0m(sys), wi |-> Wi(sys), w0c |-> W0c(sys),
                                          gamma2 |-> Gamma2(sys)],
-                                  F |-> sys.F, Q |-> sys.Q, x0 |-> sys.x0, P0 |-> sys.P0,
+                                  F |-> sys.F, Q |-> sys.Qm, x0 |-> sys.x0, P0 |-> sys.P0,
                                   steps |-> hist]))
 EmitOverflow == pc = "overflow" => PrintT(<<"LGOVF", step>>)
 
@@ -266,72 +276,69 @@ TunZeroW0    == T(<<1, 1>>, <<0, 1>>, Zero, FALSE)
 TunTenth     == T(<<1, 10>>, <<3, 2>>, <<1, 1>>, FALSE)
 TunNegKappa  == T(<<1, 1>>, <<2, 1>>, <<-1, 2>>, FALSE)
 TunThreeQ    == T(<<3, 4>>, <<1, 1>>, <<2, 1>>, FALSE)
-TuningsQuick == {TunOne, TunHalf, TunDefault}
-TuningsAll   == {TunDefault, TunOne, TunHalf, TunZeroW0, TunTenth, TunNegKappa, TunThreeQ}
+TuningsAll   == <<TunDefault, TunOne, TunHalf, TunZeroW0, TunTenth, TunNegKappa, TunThreeQ>>
 
-F1q == {M1(1), M1(2), M1(-1)}
-F1t == F1q \cup {M1(-2), M1(0), M1(3)}
-F2q == {M2(1, 1, 0, 1), M2(0, -1, 1, 0), M2(2, 0, 1, -1), M2(1, 1, 1, 1)}
-F2t == F2q \cup {M2(1, 0, 0, 1), M2(1, 2, -1, 0), M2(-2, 1, 1, 2), M2(0, 0, 0, 0)}
-Q1q == {M1(1), M1(4)}
-Q1t == Q1q \cup {M1(9), M1(2)}
-Q2q == {D2(1, 4), M2(2, -1, -1, 1)}
-Q2t == Q2q \cup {D2(1, 1), D2(9, 4), M2(2, 1, 1, 2)}
-X1q == {<<0>>, <<3>>}
-X1t == X1q \cup {<<-2>>}
-X2q == {<<1, -2>>, <<3, 1>>}
-X2t == X2q \cup {<<0, 0>>}
-P1q == {M1(1), M1(4), M1(9)}
-P1t == P1q \cup {M1(2)}
-P2q == {D2(4, 9), D2(1, 1), M2(4, -2, -2, 9)}
-P2t == P2q \cup {D2(9, 1), D2(1, 4), M2(2, 1, 1, 2), M2(5, 3, 3, 2)}
-H11q == {M1(1), M1(2), M1(-1)}
-H11t == H11q \cup {M1(0), M1(-2)}
-H12q == {C2(1, 1), C2(1, -2)}
-H12t == H12q \cup {C2(2, 0), C2(-1, 1)}
-H21q == {R2(1, 0), R2(1, 1), R2(-1, 2)}
-H21t == H21q \cup {R2(0, 1), R2(1, -1), R2(2, 1), R2(0, 0)}
-H22q == {M2(1, 0, 0, 1), M2(1, -1, 2, 1), M2(1, 1, 1, 1)}
-H22t == H22q \cup {M2(0, 1, 1, 0), M2(1, 0, 1, 1), M2(2, 0, 0, -2)}
-Rs1q == {M1(1), M1(4)}
-Rs1t == Rs1q \cup {M1(9), M1(2)}
-Rs2q == {D2(9, 1), M2(2, 1, 1, 1)}
-Rs2t == Rs2q \cup {D2(1, 4), D2(4, 4), M2(4, -2, -2, 9)}
-Y1q == {<<3>>}
-Y1t == {<<3>>, <<-1>>}
-Y2q == {<<-2, 5>>}
-Y2t == {<<-2, 5>>, <<1, 0>>}
+ShapesAll == <<<<>>, <<1>>, <<2>>, <<1, 1>>, <<1, 2>>, <<2, 1>>>>     \* total dimension <= 3
 
-FSetsQuick == <<F1q, F2q>>      FSetsThorough == <<F1t, F2t>>
-QSetsQuick == <<Q1q, Q2q>>      QSetsThorough == <<Q1t, Q2t>>
-XSetsQuick == <<X1q, X2q>>      XSetsThorough == <<X1t, X2t>>
-PSetsQuick == <<P1q, P2q>>      PSetsThorough == <<P1t, P2t>>
-HSetsQuick == <<<<H11q, H12q>>, <<H21q, H22q>>>>
-HSetsThorough == <<<<H11t, H12t>>, <<H21t, H22t>>>>
-RSetsQuick == <<Rs1q, Rs2q>>    RSetsThorough == <<Rs1t, Rs2t>>
-YSetsQuick == <<Y1q, Y2q>>      YSetsThorough == <<Y1t, Y2t>>
+\* ---- quick tier ----
+\* single step: every stack shape, both modes, negative-centre-weight and default tunings
+LatQuick ==
+  [dims |-> <<1, 2>>, modes |-> <<TRUE, FALSE>>, tun |-> <<TunHalf, TunDefault>>,
+   nsteps |-> <<1>>, stacks |-> <<ShapesAll, <<>>>>,
+   F |-> << <<M1(2), M1(-1)>>,      <<M2(1, 1, 0, 1), M2(0, -1, 2, 0), M2(1, 1, 1, 1)>> >>,
+   Q |-> << <<M1(1)>>,              <<D2(1, 4), M2(2, -1, -1, 1)>> >>,
+   X |-> << <<<<3>>>>,              <<<<1, -2>>>> >>,
+   P |-> << <<M1(4), M1(9)>>,       <<D2(4, 9), M2(4, -2, -2, 9)>> >>,
+   H |-> << << <<M1(1), M1(-2)>>,         <<C2(1, 1), C2(1, -2)>> >>,
+            << <<R2(1, 0), R2(-1, 2)>>,   <<M2(1, 0, 0, 1), M2(1, -1, 2, 1)>> >> >>,
+   R |-> << <<M1(1), M1(4)>>,       <<D2(9, 1), M2(2, 1, 1, 1)>> >>,
+   Y |-> << <<<<3>>>>,              <<<<-2, 5>>>> >>]
+\* two steps: the posterior of step 1 (rational) is the prior of step 2
+LatSeqQuick ==
+  [dims |-> <<1, 2>>, modes |-> <<TRUE, FALSE>>, tun |-> <<TunOne, TunTenth>>,
+   nsteps |-> <<2>>,
+   stacks |-> << <<<<>>, <<1>>, <<1, 2>>>>, <<<<>>, <<2>>, <<2, 1>>>> >>,
+   F |-> << <<M1(2)>>,              <<M2(1, 1, 0, 1), M2(0, -1, 2, 0)>> >>,
+   Q |-> << <<M1(1)>>,              <<D2(1, 4)>> >>,
+   X |-> << <<<<3>>>>,              <<<<1, -2>>>> >>,
+   P |-> << <<M1(4)>>,              <<D2(4, 9), M2(2, 1, 1, 2)>> >>,
+   H |-> << << <<M1(1), M1(-2)>>,         <<C2(1, -2)>> >>,
+            << <<R2(1, 0), R2(-1, 2)>>,   <<M2(1, -1, 2, 1)>> >> >>,
+   R |-> << <<M1(4)>>,              <<D2(9, 1), M2(2, 1, 1, 1)>> >>,
+   Y |-> << <<<<3>>>>,              <<<<-2, 5>>>> >>]
 
-\* stack shapes: tuples of observation dimensions (total <= 3)
-ShapesAll  == {<<>>, <<1>>, <<2>>, <<1, 1>>, <<1, 2>>, <<2, 1>>}
-StacksOne  == <<ShapesAll, {<<>>}>>
-StacksSeq  == <<{<<>>, <<1>>, <<1, 2>>}, {<<>>, <<2>>, <<2, 1>>}>>
-StacksSeqT == <<{<<>>, <<1>>, <<2>>, <<1, 2>>}, {<<>>, <<1>>, <<2>>, <<2, 1>>}>>
+\* ---- thorough tier ----
+LatThorough ==
+  [dims |-> <<1, 2>>, modes |-> <<TRUE, FALSE>>, tun |-> TuningsAll,
+   nsteps |-> <<1>>, stacks |-> <<ShapesAll, <<>>>>,
+   F |-> << <<M1(1), M1(-2), M1(3)>>,
+            <<M2(1, 1, 0, 1), M2(1, 2, -1, 0), M2(-2, 1, 1, 2), M2(0, 0, 0, 0)>> >>,
+   Q |-> << <<M1(2)>>,                     <<D2(9, 1), M2(2, 1, 1, 2)>> >>,
+   X |-> << <<<<0>>, <<-2>>>>,             <<<<3, 1>>>> >>,
+   P |-> << <<M1(1), M1(2)>>,              <<D2(1, 1), M2(5, 3, 3, 2), D2(9, 4)>> >>,
+   H |-> << << <<M1(1), M1(-1), M1(0)>>,   <<C2(2, 0), C2(-1, 1)>> >>,
+            << <<R2(0, 1), R2(1, 1), R2(0, 0)>>,
+               <<M2(1, 1, 1, 1), M2(0, 1, 1, 0), M2(2, 0, 1, -2)>> >> >>,
+   R |-> << <<M1(9), M1(2)>>,              <<D2(1, 4), M2(4, -2, -2, 9)>> >>,
+   Y |-> << <<<<-1>>>>,                    <<<<1, 0>>>> >>]
+LatSeqThorough ==
+  [dims |-> <<1, 2>>, modes |-> <<TRUE, FALSE>>,
+   tun |-> <<TunHalf, TunDefault, TunZeroW0, TunNegKappa>>,
+   nsteps |-> <<2>>,
+   stacks |-> << <<<<>>, <<1>>, <<2>>, <<1, 2>>>>, <<<<>>, <<1>>, <<2>>, <<2, 1>>>> >>,
+   F |-> << <<M1(-1), M1(1)>>,      <<M2(1, 1, 0, 1), M2(1, 0, 0, 1), M2(1, 1, 1, 1)>> >>,
+   Q |-> << <<M1(1), M1(4)>>,       <<D2(1, 1), M2(2, -1, -1, 1)>> >>,
+   X |-> << <<<<-2>>>>,             <<<<0, 3>>>> >>,
+   P |-> << <<M1(1), M1(9)>>,       <<D2(1, 4), M2(2, 1, 1, 2)>> >>,
+   H |-> << << <<M1(1), M1(2)>>,          <<C2(1, 1), C2(0, 1)>> >>,
+            << <<R2(0, 1), R2(1, 1)>>,    <<M2(1, 0, 0, 1), M2(1, 1, 0, 1)>> >> >>,
+   R |-> << <<M1(1)>>,              <<D2(1, 4)>> >>,
+   Y |-> << <<<<-1>>>>,             <<<<1, 0>>>> >>]
 
-\* the big lattice sampled by TLC's simulator (seeded): all F, H with entries in -2..2,
-\* all diagonal and a family of dense positive-definite P, Q, R
-E5 == {-2, -1, 0, 1, 2}
-V3 == {1, 4, 9}
-Dense2 == {M2(2, 1, 1, 2), M2(2, -1, -1, 1), M2(4, -2, -2, 9), M2(5, 3, 3, 2), M2(9, 3, 3, 2),
-           M2(1, 1, 1, 3), M2(3, -2, -2, 3)}
-Cov1 == {M1(v) : v \in {1, 2, 4, 9}}
-Cov2 == {D2(a, d) : a \in V3, d \in V3} \cup Dense2
-FSetsBig == <<{M1(a) : a \in E5 \cup {3}}, {M2(a, b, c, d) : a \in E5, b \in E5, c \in E5, d \in E5}>>
-QSetsBig == <<Cov1, Cov2>>
-PSetsBig == <<Cov1, Cov2>>
-XSetsBig == <<{<<a>> : a \in {-3, 0, 1, 5}}, {<<a, b>> : a \in {-3, 0, 2}, b \in {-1, 0, 4}}>>
-HSetsBig == <<<<{M1(a) : a \in E5}, {C2(a, b) : a \in E5, b \in E5}>>,
-              <<{R2(a, b) : a \in E5, b \in E5}, {M2(a, b, c, d) : a \in E5, b \in E5, c \in E5, d \in E5}>>>>
-RSetsBig == <<Cov1, Cov2>>
-YSetsBig == <<{<<a>> : a \in {-4, 0, 3}}, {<<a, b>> : a \in {-4, 0, 3}, b \in {-1, 2}}>>
-StacksBig == <<ShapesAll, ShapesAll>>
+\* lattices written by the driver (seeded random sub-lattices of: F, H entries in -3..3,
+\* P, Q, R random positive-definite integer matrices, x0, y in -6..6); "[]" when unused
+LatsFile     == JsonDeserialize(IOEnv.LG_LATTICES)
+LatsQuick    == <<LatQuick, LatSeqQuick>>
+LatsThorough == <<LatThorough>>
+LatsSeqThorough == <<LatSeqThorough>>
 =============================================================================
